@@ -541,7 +541,7 @@ def run(ctx):
             case = dict(case)
             viol, runner = execute(case)
             handle(case, [], runner, judged=False)
-        n = ctx.scale(140, 2500)
+        n = ctx.scale(1200, 15000)
         for _ in range(n):
             case = {"seed": rng.randrange(1 << 30), "cap": rng.choice([2, 3, 4, 4, 5]), "msgs": [],
                     "plan": plan_for(rng, ctx.thorough)}
